@@ -246,7 +246,7 @@ ADAPTORS = {
 
 class Machine(object):
     def __init__(self, facts, inline=None, opaque_fns=(), max_paths=20000, max_depth=12,
-                 on_next=None, identity_clone=True, keep_trace=False, loop_once=False):
+                 on_next=None, identity_clone=True, keep_trace=False, loop_once=False, alias=None, pure_fns=()):
         self.facts = facts
         self.inline = inline  # predicate(path) -> bool, default: every crate-local fn with MIR
         self.opaque_fns = set(opaque_fns)
@@ -254,6 +254,8 @@ class Machine(object):
         self.max_depth = max_depth
         self.on_next = on_next
         self.keep_trace = keep_trace
+        self.alias = alias  # callable(label) -> shorter label (or the same)
+        self.pure_fns = set(pure_fns)  # opaque calls without side effects (not logged as effects)
         self.loop_once = loop_once  # `for` loops: one generic element, then the iterator is exhausted (no fork)
         self.steps = 0
 
@@ -970,13 +972,16 @@ class Machine(object):
         # ---- opaque call
         arg_labels = tuple(lab(a) for a in args)
         sname = short(name)
-        pure = name.endswith(PURE_SUFFIXES) or name in self.opaque_fns and False
+        pure = name.endswith(PURE_SUFFIXES) or name in self.pure_fns
         if not pure:
             st.effects.append(("call", sname, arg_labels, loc(t)))
             for a in args:
                 if isinstance(a, Ref) and a.mut:
                     self.bump(a)
-        res = Opaque(("call", sname, arg_labels), t["dest"]["ty"])
+        l = ("call", sname, arg_labels)
+        if self.alias is not None:
+            l = self.alias(l)
+        res = Opaque(l, t["dest"]["ty"])
         return finish(res)
 
     # ---- iterator drivers (one generic element per for_each / try_for_each) -------------------------
